@@ -621,6 +621,11 @@ def _ev(e, env):
                 return False
             left = right
         return True
+    if isinstance(e, ast.Set):
+        try:
+            return {(_ev(x, env)) for x in e.elts}
+        except TypeError:
+            raise Raised("TypeError")
     if isinstance(e, ast.JoinedStr):
         parts = []
         for v_ in e.values:
